@@ -82,6 +82,7 @@ type W1 struct {
 	rc      *RunCtx
 	Calls   []*Call
 	byName  map[string]*Call
+	stalled map[int]chan struct{} // conn -> closed when the slow frame write is over
 	Replies map[uint32]ReplyInfo
 	nonce   uint32
 	Closed  bool // transport Close() has been called
@@ -96,7 +97,7 @@ type W1 struct {
 }
 
 func newW1(rc *RunCtx) *W1 {
-	return &W1{rc: rc, byName: map[string]*Call{}, Replies: map[uint32]ReplyInfo{}, Outstanding: map[int]map[uint16]int{}, MaxOutstanding: map[int]int{}}
+	return &W1{rc: rc, stalled: map[int]chan struct{}{}, byName: map[string]*Call{}, Replies: map[uint32]ReplyInfo{}, Outstanding: map[int]map[uint16]int{}, MaxOutstanding: map[int]int{}}
 }
 
 // NewCall creates a call with a unique question.
@@ -208,6 +209,13 @@ type Action struct {
 	Garbage   bool // send a short/garbage frame instead
 	Runt      bool // datagram only: send a runt (<12 bytes) datagram before the reply
 	HoldUntil chan struct{} // reply only after this channel is closed
+	// StallForge (stream only): the reply frame ends in an opaque record whose
+	// data is, byte for byte, a length-prefixed reply with this query's wire ID
+	// (registered as kind "embedded": it was never sent as a frame). The server
+	// writes the frame up to that point, stalls for this long, then writes the
+	// rest. A reader that loses its place in the stream during the stall takes
+	// the embedded bytes for a frame.
+	StallForge time.Duration
 }
 
 // Serve returns the per-connection server task body.
@@ -293,6 +301,45 @@ func (w *W1) Serve(opts ServerOpts) func(sc *simnet.Conn) {
 					sinfo.WireID = wid + 0x4000
 					b, si := w.MakeReply(q, sinfo, false, 0)
 					sc.WriteMsg(b, si)
+				}
+				if ch := w.stalled[sc.ID]; ch != nil {
+					simrt.Recv(0, ch) // another reply is being written slowly: one frame at a time
+					if sc.IsClosed() {
+						return
+					}
+				}
+				if !act.NoReply && act.StallForge > 0 && sc.Stream {
+					simrt.Fault("srv_stall_inside_frame")
+					einfo := info
+					einfo.Kind = "embedded"
+					inner, _ := w.MakeReply(q, einfo, false, 0)
+					b, _ := w.MakeReply(q, info, false, 0)
+					om := new(dns.Msg)
+					if err := om.Unpack(b); err != nil {
+						panic(err)
+					}
+					data := append([]byte{byte(len(inner) >> 8), byte(len(inner))}, inner...)
+					om.Extra = append(om.Extra, &dns.NULL{Hdr: dns.RR_Header{Name: ".", Rrtype: dns.TypeNULL, Class: dns.ClassINET}, Data: string(data)})
+					ob, err := om.Pack()
+					if err != nil {
+						panic(err)
+					}
+					if !bytes.HasSuffix(ob, data) {
+						panic("embedded reply is not the tail of the frame")
+					}
+					frame := append([]byte{byte(len(ob) >> 8), byte(len(ob))}, ob...)
+					cut := len(frame) - len(data)
+					ch := make(chan struct{})
+					w.stalled[sc.ID] = ch
+					w.onReplied(sc.ID, wid)
+					sc.WriteRaw(frame[:cut])
+					simrt.Sleep(0, act.StallForge)
+					if !sc.IsClosed() {
+						sc.WriteRaw(frame[cut:])
+					}
+					delete(w.stalled, sc.ID)
+					close(ch)
+					return
 				}
 				if !act.NoReply {
 					b, ri := w.MakeReply(q, info, act.TC, act.Pad)
@@ -426,6 +473,9 @@ func (w *W1) CheckProvenance(c *Call) {
 	}
 	if info.Kind == "stray" {
 		rc.Fail("stray_delivered", "call %d got stray %v", c.Idx, info)
+	}
+	if info.Kind == "embedded" {
+		rc.Fail("bytes_inside_a_frame_delivered_as_reply", "call %d got %v: these bytes were record data inside another frame, never a frame of their own", c.Idx, info)
 	}
 }
 
